@@ -140,7 +140,7 @@ PLANS["C06"] = {
         T("general", "general", (30, 800), ["InvAudit"]),
         # multi-page collections: bulk operations, DropIndex / CreateIndex over hundreds of entries
         T("bulk", "bulk", (24, 240), ["InvAudit"], backends="bolt,badger", chunk=3, heap="6g"),
-        EDG("edges", ["InvAudit"], states=(30, 0), reads=(1, 1), writes=(25, 150)),
+        EDG("edges", ["InvAudit"], states=(30, 0), reads=(1, 1), writes=(25, 60)),
     ],
 }
 
@@ -200,7 +200,7 @@ PLANS["C20"] = {
         T("closed", "closed", (20, 400), ["InvNoPanic"], backends="bolt,badger"),
         T("rich", "rich", (20, 400), ["InvNoPanic"]),
         T("extremes", "extremes", (10, 200), ["InvNoPanic"]),
-        EDG("edges", ["InvNoPanic"], states=(20, 0), reads=(30, 300), writes=(10, 100)),
+        EDG("edges", ["InvNoPanic"], states=(20, 0), reads=(30, 200), writes=(10, 40)),
         # the public query / index / document APIs called directly
         AUX("satisfy", "satisfy", (250, 5000), invariants=["InvAuxNoPanic"]),
         AUX("scan", "scan", (30, 600), invariants=["InvAuxNoPanic"]),
@@ -233,7 +233,7 @@ PLANS["C03"] = {
         T("bulk", "bulk", (36, 240), ["InvC03", "InvBackendsAgree"], backends="bolt,badger", chunk=3, heap="6g"),
         T("bulkbig", "bulkbig", (0, 40), ["InvC03"], backends="bolt,badger", chunk=1, heap="10g", tier="thorough"),
         T("general", "general", (30, 600), ["InvC03"]),
-        EDG("edges", ["InvC03"], ops=["UpdateFunc", "Delete", "DropCollection"], states=(30, 0), reads=(0, 0), writes=(20, 0)),
+        EDG("edges", ["InvC03"], ops=["UpdateFunc", "Delete", "DropCollection"], states=(30, 0), reads=(0, 0), writes=(20, 40)),
     ],
 }
 
